@@ -44,6 +44,12 @@ Theorem reapply_idem : forall st e,
   valid_event st e = true -> reapply (fst (apply st e)) e = (fst (apply st e), 0).
 Proof. exact (reapply_idem_proved low_mask_is_partition_mask low_part_fits_two_bytes reapply_overwrites). Qed.
 
+(* Recovery of an event that was logged but whose records were not written yet does exactly what
+   Apply would have done. *)
+Theorem reapply_completes_apply : forall st e,
+  valid_event st e = true -> reapply st e = apply st e.
+Proof. exact (reapply_completes_apply_proved low_mask_is_partition_mask low_part_fits_two_bytes reapply_overwrites). Qed.
+
 (* The fold specification holds for every history in which any prefix is followed by any number
    of re-applies of its last event. *)
 Theorem fold_spec_with_reapply : forall ops ws id,
@@ -64,6 +70,14 @@ Theorem update_keeps_unnamed : forall o u r i,
   build_update o u = Some r -> (i < length (r_fields o))%nat -> nth i (u_changes u) Keep = Keep ->
   nth i (r_fields r) None = nth i (r_fields o) None.
 Proof. exact (update_keeps_unnamed_proved low_mask_is_partition_mask low_part_fits_two_bytes). Qed.
+
+(* Link to the correspondence check: on every valid history with re-applies, with any set of
+   records read after every step, the trace the model produces is accepted by the oracle
+   [satisfies] that bin/check evaluates on the traces observed from the Go code.  So wherever the
+   observed trace equals the model's ([agrees]) on a valid history, the oracle's verdict is the theorem. *)
+Theorem satisfies_model_trace : forall ops qs,
+  valid_ops [] None ops = true -> qs_bounded qs -> satisfies (model_trace [] None ops qs) = true.
+Proof. exact (satisfies_model_trace_proved low_mask_is_partition_mask low_part_fits_two_bytes reapply_overwrites). Qed.
 
 (* The full statement without the hypothesis that the record handed to ICUD.Update is the stored
    one:
@@ -130,6 +144,11 @@ Example fold_spec_with_reapply_nonvacuous :
   valid_ops [] None (flat_map (fun e => [OApply e; OReapply; OReapply]) demo) = true.
 Proof. vm_compute. reflexivity. Qed.
 
+Example satisfies_model_trace_nonvacuous :
+  let t := model_trace [] None (flat_map (fun e => [OApply e; OReapply]) demo) [(1, 204799); (2, 204799); (2, 65536); (1, 7)] in
+  length t = 40%nat /\ satisfies t = true /\ agrees t = true.
+Proof. vm_compute. repeat split. Qed.
+
 Example apply_frame_nonvacuous :
   let st := run [] (firstn 3 demo) in
   let e := nth 3 demo (mkEvent 0 [] []) in
@@ -145,7 +164,9 @@ Print Assumptions record_key_injective.
 Print Assumptions apply_fold_spec.
 Print Assumptions untouched_absent.
 Print Assumptions reapply_idem.
+Print Assumptions reapply_completes_apply.
 Print Assumptions fold_spec_with_reapply.
 Print Assumptions apply_frame.
 Print Assumptions update_keeps_unnamed.
+Print Assumptions satisfies_model_trace.
 Print Assumptions apply_fold_spec_without_fresh_origins_refuted.
